@@ -402,6 +402,13 @@ def skip_map(decoder, writer_schema, named_schemas):
     decoder.read_map_end()
 
 
+def _named_type_name(schema, named_schemas):
+    """Name of a named type that is given inline (dict) or by reference (str)"""
+    if isinstance(schema, dict):
+        return schema["name"]
+    return named_schemas[schema]["name"]
+
+
 def read_union(
     decoder,
     writer_schema,
@@ -455,13 +462,15 @@ def read_union(
         return result
     elif return_named_type and extract_record_type(idx_schema) in NAMED_TYPES:
         schema_name = (
-            idx_reader_schema["name"] if idx_reader_schema else idx_schema["name"]
+            _named_type_name(idx_reader_schema, named_schemas["reader"])
+            if idx_reader_schema
+            else idx_schema["name"]
         )
         return (schema_name, result)
     elif return_named_type and extract_record_type(idx_schema) not in AVRO_TYPES:
         # idx_schema is a named type
         schema_name = (
-            named_schemas["reader"][idx_reader_schema]["name"]
+            _named_type_name(idx_reader_schema, named_schemas["reader"])
             if idx_reader_schema
             else named_schemas["writer"][idx_schema]["name"]
         )
@@ -470,13 +479,15 @@ def read_union(
         return result
     elif return_record_name and extract_record_type(idx_schema) == "record":
         schema_name = (
-            idx_reader_schema["name"] if idx_reader_schema else idx_schema["name"]
+            _named_type_name(idx_reader_schema, named_schemas["reader"])
+            if idx_reader_schema
+            else idx_schema["name"]
         )
         return (schema_name, result)
     elif return_record_name and extract_record_type(idx_schema) not in AVRO_TYPES:
         # idx_schema is a named type
         schema_name = (
-            named_schemas["reader"][idx_reader_schema]["name"]
+            _named_type_name(idx_reader_schema, named_schemas["reader"])
             if idx_reader_schema
             else named_schemas["writer"][idx_schema]["name"]
         )
